@@ -22,12 +22,16 @@ func checkC05(p *Prog, r *Report) {
 	c05AnnualDay(p, r)
 	c05CropFlag(p, r)
 	c05Columns(p, r)
+	c05Render(p, r)
 	c05EndWriters(p, r)
 	// consecutive dates with correct leap days rest on the date arithmetic (shared with C12.R1/R2)
 	c12Tables(p, r, "C05.R5a")
 	c12Leap(p, r, "C05.R5b")
 	c12LeapThreshold(p, r)
 	c12InverseDayOfYear(p, r)
+	// the crop record is written when the harvest branch fires; a crop whose harvest date is never set gets no
+	// record and blocks the records of all later rotation entries (shared with C16.R3)
+	c16Harvest(p, r, "C05.R6")
 }
 
 // outputRoles maps the OutputConfig variables of the run closure to the
